@@ -103,7 +103,17 @@ fn viol(rep: &mut Report, case: &Case, oracle: &str, what: &str, detail: String)
 
 fn prefixes(len: usize, r: &mut Rng, every: bool) -> Vec<usize> {
     if every {
-        return (0..len).collect();
+        if len <= 16384 {
+            return (0..len).collect();
+        }
+        // long encodings (whole circuits are megabytes, a decode attempt is linear in the prefix): every prefix of the
+        // head and of the tail, plus an even stride through the middle
+        let mut v: Vec<usize> = (0..4096).chain(len - 4096..len).collect();
+        let step = (len / 2048).max(1);
+        v.extend((4096..len - 4096).step_by(step));
+        v.sort();
+        v.dedup();
+        return v;
     }
     let mut v = vec![0, 1, 7, 8, len / 2, len.saturating_sub(9), len.saturating_sub(8), len.saturating_sub(1)];
     for _ in 0..6 {
